@@ -107,13 +107,13 @@ fn check<const N: usize>(pieces: [&[&[u8]]; N]) {
 // used: the header "vN" ‖ suffix ‖ ".purpose."), fragment lengths symbolic in 0..600.
 #[kani::proof]
 #[kani::unwind(10)]
-fn pae_n0() {
+pub fn pae_n0() {
     check::<0>([]);
 }
 
 #[kani::proof]
 #[kani::unwind(10)]
-fn pae_n1_frag0123() {
+pub fn pae_n1_frag0123() {
     let store: [u8; BIG] = kani::any();
     let (a, b, c) = (frag_at(&store, 0, 600), frag_at(&store, 1, 600), frag_at(&store, 2, 600));
     let k: u8 = kani::any();
@@ -127,7 +127,7 @@ fn pae_n1_frag0123() {
 
 #[kani::proof]
 #[kani::unwind(10)]
-fn pae_n2() {
+pub fn pae_n2() {
     let store: [u8; BIG] = kani::any();
     let (a, b, c) = (frag_at(&store, 0, 600), frag_at(&store, 1, 600), frag_at(&store, 2, 600));
     check::<2>([&[a, b], &[c]]);
@@ -136,7 +136,7 @@ fn pae_n2() {
 /// v2 local / v1,v2 public shape: 3 pieces, header in three fragments
 #[kani::proof]
 #[kani::unwind(10)]
-fn pae_n3_header3() {
+pub fn pae_n3_header3() {
     let store: [u8; BIG] = kani::any();
     let (h1, h2, h3) = (frag_at(&store, 0, 8), frag_at(&store, 1, 8), frag_at(&store, 2, 16));
     let (n, f) = (frag_at(&store, 3, 600), frag_at(&store, 4, 600));
@@ -146,7 +146,7 @@ fn pae_n3_header3() {
 /// v4 public shape: 4 pieces
 #[kani::proof]
 #[kani::unwind(10)]
-fn pae_n4_public() {
+pub fn pae_n4_public() {
     let store: [u8; BIG] = kani::any();
     let (h1, h2, h3) = (frag_at(&store, 0, 8), frag_at(&store, 1, 8), frag_at(&store, 2, 16));
     let (m, f, a) = (frag_at(&store, 3, 600), frag_at(&store, 4, 600), frag_at(&store, 5, 600));
@@ -156,7 +156,7 @@ fn pae_n4_public() {
 /// v3/v4 local shape: 5 pieces
 #[kani::proof]
 #[kani::unwind(10)]
-fn pae_n5_local() {
+pub fn pae_n5_local() {
     let store: [u8; BIG] = kani::any();
     let (h1, h2, h3) = (frag_at(&store, 0, 8), frag_at(&store, 1, 8), frag_at(&store, 2, 16));
     let (n, c, f, a) = (frag_at(&store, 3, 64), frag_at(&store, 4, 600), frag_at(&store, 5, 600), frag_at(&store, 6, 600));
@@ -166,7 +166,7 @@ fn pae_n5_local() {
 /// quick variants of the two most used shapes with fragment lengths 0..2
 #[kani::proof]
 #[kani::unwind(10)]
-fn pae_n5_local_small() {
+pub fn pae_n5_local_small() {
     let store: [u8; BIG] = kani::any();
     let (h1, h2, h3) = (frag_at(&store, 0, 2), frag_at(&store, 1, 2), frag_at(&store, 2, 2));
     let (n, c, f, a) = (frag_at(&store, 3, 2), frag_at(&store, 4, 2), frag_at(&store, 5, 2), frag_at(&store, 6, 2));
@@ -174,7 +174,7 @@ fn pae_n5_local_small() {
 }
 #[kani::proof]
 #[kani::unwind(10)]
-fn pae_n4_public_small() {
+pub fn pae_n4_public_small() {
     let store: [u8; BIG] = kani::any();
     let (h1, h2, h3) = (frag_at(&store, 0, 2), frag_at(&store, 1, 2), frag_at(&store, 2, 2));
     let (m, f, a) = (frag_at(&store, 3, 2), frag_at(&store, 4, 2), frag_at(&store, 5, 2));
@@ -184,7 +184,7 @@ fn pae_n4_public_small() {
 /// v3 public shape: key first
 #[kani::proof]
 #[kani::unwind(10)]
-fn pae_n5_v3public() {
+pub fn pae_n5_v3public() {
     let store: [u8; BIG] = kani::any();
     let pk = frag_at(&store, 0, 64);
     let (h1, h2, h3) = (frag_at(&store, 1, 8), frag_at(&store, 2, 8), frag_at(&store, 3, 16));
@@ -195,7 +195,7 @@ fn pae_n5_v3public() {
 /// 8 pieces (the quantifier's upper end), single fragments
 #[kani::proof]
 #[kani::unwind(12)]
-fn pae_n8() {
+pub fn pae_n8() {
     let store: [u8; BIG] = kani::any();
     let a = frag_at(&store, 0, 600);
     let b = frag_at(&store, 1, 600);
@@ -214,7 +214,7 @@ fn vec_pae<const N: usize>(pieces: [&[&[u8]]; N]) -> Vec<u8> {
 /// (small concrete lengths, symbolic contents): LE64(2) ‖ LE64(3)‖h‖""‖x ‖ LE64(2)‖m
 #[kani::proof]
 #[kani::unwind(40)]
-fn pae_vec_bytes() {
+pub fn pae_vec_bytes() {
     let h: [u8; 2] = kani::any();
     let x: [u8; 1] = kani::any();
     let m: [u8; 2] = kani::any();
@@ -237,7 +237,7 @@ fn split_pae(bytes: &[u8; 3], i: usize, j: usize) -> Vec<u8> {
 }
 #[kani::proof]
 #[kani::unwind(46)]
-fn pae_boundary_shift() {
+pub fn pae_boundary_shift() {
     let bytes: [u8; 3] = kani::any();
     // reference encoding for the split (0,0) is compared against every other split, and a second
     // base split (1,2) against every other; together with symmetry this covers the interesting pairs
